@@ -40,6 +40,9 @@ type variant struct {
 	starts    map[int32]int64  // explicit ConsumePartitions start offsets (nil: ConsumeTopics from the start)
 	partBytes int32            // FetchMaxPartitionBytes (0: default)
 	prefer    bool             // ENV = preferred-replica change instead of a leader move
+	idleMove  bool             // ENV = leader move with no append in the new leader epoch
+	oneSource bool             // both partitions start on broker 0; ENV moves t/1 to broker 1
+	early     bool             // ENV starts when the first Fetch request was delivered and moves the partition of the OTHER broker onto that broker
 	order     string           // thread declaration order
 	pauseAt   int              // T2 starts after this many T1 polls returned
 	envAt     int              // ENV starts after this many T1 polls returned
@@ -84,6 +87,9 @@ type state struct {
 	cond       *sync.Cond
 	pausedPoll int // polls that ran entirely inside the paused window
 	preferOn   bool
+	firstFetch int // broker index of the first delivered Fetch request (-1: none yet)
+	topicID    [16]byte
+	moved      string
 }
 
 func (st *state) missing() (out []string) {
@@ -196,6 +202,31 @@ func (st *state) doPoll(who string, n int, timeout time.Duration) (nrecs int) {
 	return nrecs
 }
 
+// appendAfterMove produces one plain record to t/1 through a fresh
+// uncontrolled client (which learns the new leader from its first metadata
+// response) and adds it to the expected set.
+func (st *state) appendAfterMove(p int32) {
+	x := st.x
+	t0 := x.Elapsed()
+	h := nscen.Helper(x, st.c, kgo.RecordPartitioner(kgo.ManualPartitioner()), kgo.ProducerBatchCompression(kgo.NoCompression()), kgo.ProducerLinger(0))
+	defer h.Close()
+	ctx, cancel := context.WithTimeout(context.Background(), time.Minute)
+	defer cancel()
+	r := &kgo.Record{Topic: topic, Partition: p, Value: []byte(fmt.Sprintf("p%d-postmove", p))}
+	if err := h.ProduceSync(ctx, r).FirstErr(); err != nil {
+		x.Violate("harness:append", "append after move: %v", err)
+		return
+	}
+	st.mu.Lock()
+	st.expected[p][r.Offset] = true
+	st.kind[p][r.Offset] = "data"
+	st.value[p][r.Offset] = string(r.Value)
+	st.mu.Unlock()
+	if d := x.Elapsed() - t0; d != 0 {
+		x.Count("append-took-virtual-time", 1)
+	}
+}
+
 func (st *state) startOf(p int32) int64 {
 	if st.v.starts == nil {
 		return 0
@@ -267,13 +298,20 @@ func scenario(v *variant) *netctl.Scenario {
 		Setup: func(x *netctl.Exec) {
 			c := x.Cluster(2, kfake.SeedTopics(2, topic))
 			c.MoveTopicPartition(topic, 0, 0)
-			c.MoveTopicPartition(topic, 1, 1)
+			if v.oneSource {
+				c.MoveTopicPartition(topic, 1, 0)
+			} else {
+				c.MoveTopicPartition(topic, 1, 1)
+			}
 			preload(x, c)
-			st := &state{v: v, c: c, x: x, hooks: nscen.NewHookLedger()}
+			st := &state{v: v, c: c, x: x, hooks: nscen.NewHookLedger(), firstFetch: -1}
+			if ti := c.TopicInfo(topic); ti != nil {
+				st.topicID = ti.TopicID
+			}
 			st.cond = sync.NewCond(&st.mu)
 			x.Data = st
 			for p := int32(0); p < 2; p++ {
-				st.raw[p] = readRaw(x, c, topic, p)
+				st.raw[p] = nscen.ReadRaw(x, c, topic, p)
 				st.kind[p], st.value[p], st.expected[p], st.seen[p] = map[int64]string{}, map[int64]string{}, map[int64]bool{}, map[int64]int{}
 				st.last[p] = -1
 				visible, open := nscen.Committed(st.raw[p])
@@ -376,17 +414,60 @@ func scenario(v *variant) *netctl.Scenario {
 				st.cl.ResumeFetchPartitions(map[string][]int32{topic: {0}})
 			}
 			env := func(t *netctl.Thread) {
+				if v.early {
+					st.mu.Lock()
+					for st.firstFetch < 0 && !st.t1done {
+						st.cond.Wait()
+					}
+					to := int32(st.firstFetch)
+					st.mu.Unlock()
+					if to < 0 {
+						return
+					}
+					// Partition p starts on broker p: move the partition whose
+					// first Fetch request is still on its way.
+					t.Step("move-other")
+					c.MoveTopicPartition(topic, 1-to, to)
+					st.mu.Lock()
+					st.moved = fmt.Sprintf("t/%d->b%d", 1-to, to)
+					st.mu.Unlock()
+					st.appendAfterMove(1 - to)
+					return
+				}
 				st.waitPolls(v.envAt)
-				if v.prefer {
+				switch {
+				case v.prefer:
 					t.Step("prefer-t1-on-b0")
 					c.SetFollowers(topic, 1, []int32{0})
 					st.mu.Lock()
 					st.preferOn = true
 					st.mu.Unlock()
-					return
+					st.appendAfterMove(1) // to be read from the follower
+				case v.oneSource:
+					t.Step("move-t1-to-b1")
+					c.MoveTopicPartition(topic, 1, 1)
+					st.appendAfterMove(1)
+				case v.idleMove:
+					t.Step("move-t1-to-b0")
+					c.MoveTopicPartition(topic, 1, 0)
+				default:
+					// Leader move followed by one record in the new leader epoch
+					// (uncontrolled producer, no virtual time passes): the usual
+					// shape of a leader change.
+					t.Step("move-t1-to-b0")
+					c.MoveTopicPartition(topic, 1, 0)
+					st.appendAfterMove(1)
 				}
-				t.Step("move-t1-to-b0")
-				c.MoveTopicPartition(topic, 1, 0)
+			}
+			x.FrameHook = func(conn *netctl.Conn, dir string, key, ver int16, frame []byte) {
+				if conn.Client == "c" && dir == "req" && key == 1 {
+					st.mu.Lock()
+					if st.firstFetch < 0 {
+						st.firstFetch = conn.Broker
+						st.cond.Broadcast()
+					}
+					st.mu.Unlock()
+				}
 			}
 			for _, name := range strings.Split(v.order, ",") {
 				switch name {
@@ -461,33 +542,58 @@ func scenario(v *variant) *netctl.Scenario {
 					fin++
 				}
 			}
-			x.Observe("%sfinal=%d inpause=%d errs=%v", sb.String(), fin, st.pausedPoll, es)
+			x.Observe("%sfinal=%d inpause=%d moved=%s errs=%v", sb.String(), fin, st.pausedPoll, st.moved, es)
 		},
 	}
 }
 
-// installPrefer makes broker 1 (leader of t/1) answer fetches for t/1 with
-// PreferredReadReplica=0 once the ENV thread enabled it: kfake accepts fetches
-// on followers (SetFollowers) but never nominates one itself.
+// installPrefer makes broker 1 (leader of t/1) answer the consumer's fetches
+// with PreferredReadReplica=0 for t/1 once the ENV thread enabled it: kfake
+// serves fetches on followers (SetFollowers) but never nominates one itself
+// (01_fetch.go ignores the request's Rack). Session-establishing requests
+// (epoch 0) are left to kfake so that the consumer keeps a fetch session; the
+// intercepted request does not advance kfake's session epoch, so the next
+// request on that session is answered INVALID_FETCH_SESSION_EPOCH by kfake
+// (a legal broker answer the client must absorb).
 func installPrefer(st *state) {
 	st.c.ControlKey(1, func(kreq kmsg.Request) (kmsg.Response, error, bool) {
 		st.c.KeepControl()
 		st.mu.Lock()
 		on := st.preferOn
 		st.mu.Unlock()
-		if !on || st.c.CurrentNode() != 1 {
-			return nil, nil, false
-		}
 		req := kreq.(*kmsg.FetchRequest)
-		if req.Version < 11 || req.Rack == "" {
+		if !on || st.c.CurrentNode() != 1 || req.Version < 11 || req.Rack == "" || req.SessionEpoch == 0 {
 			return nil, nil, false
 		}
-		return nil, nil, false
+		resp := req.ResponseKind().(*kmsg.FetchResponse)
+		if req.SessionEpoch > 0 {
+			resp.SessionID = req.SessionID
+		}
+		rt := kmsg.NewFetchResponseTopic()
+		rt.Topic = topic
+		rt.TopicID = st.topicID
+		rp := kmsg.NewFetchResponseTopicPartition()
+		rp.Partition = 1
+		rp.PreferredReadReplica = 0
+		rp.HighWatermark = -1
+		rp.RecordBatches = []byte{}
+		rt.Partitions = append(rt.Partitions, rp)
+		resp.Topics = append(resp.Topics, rt)
+		st.x.Count("preferred-replica-answers", 1)
+		return resp, nil, true
 	})
 }
 
 var variants = []*variant{
 	{name: "D-topics", cycle: []int{1, 3, 0}, order: "T2,ENV,T1", pauseAt: 1, envAt: 1},
+	{name: "D-rc", cycle: []int{1, 0, 3}, rc: true, order: "T2,ENV,T1", pauseAt: 1, envAt: 1},
+	{name: "D-parts", cycle: []int{3, 1, 0}, starts: map[int32]int64{0: 2, 1: 6}, order: "ENV,T2,T1", pauseAt: 1, envAt: 1},
+	{name: "D-split", cycle: []int{1, 3, 0}, partBytes: 200, order: "T2,ENV,T1", pauseAt: 2, envAt: 1},
+	{name: "D-early", cycle: []int{1, 3, 0}, early: true, order: "ENV,T2,T1", pauseAt: 1},
+	{name: "D-early-rc", cycle: []int{3, 0, 1}, early: true, rc: true, order: "ENV,T1,T2", pauseAt: 1},
+	{name: "D-onesource", cycle: []int{1, 3, 0}, oneSource: true, order: "T2,ENV,T1", pauseAt: 1, envAt: 2},
+	{name: "D-prefer", cycle: []int{1, 3, 0}, prefer: true, order: "ENV,T2,T1", pauseAt: 1, envAt: 1},
+	{name: "D-move-idle", cycle: []int{1, 3, 0}, idleMove: true, order: "T2,ENV,T1", pauseAt: 1, envAt: 1, weight: 0.5},
 }
 
 var plans = func() []nrun.Plan {
